@@ -1,0 +1,20 @@
+//go:build verif
+
+package io
+
+// Contracts for the goverif VC generator (/verif). Comment-only file: it adds no code.
+
+// ---- C33: `>` truncates, `>>` appends ---------------------------------------------------------------------
+// The truncating writer opens its target with os.Create (truncate-on-open: whatever the file held is gone
+// even when nothing is written afterwards) and copies the reader into it; the appending writer opens with
+// O_APPEND|O_WRONLY|O_CREATE and never truncates.
+//@ func truncateFile [C33]
+//@   check none
+//@   at call os.Create#1 assert arg0 == filename
+//@   at call io.Copy#1 assert arg1 == reader
+//@   ensures called("os.Create") && !called("os.OpenFile") && imp(result == nil, called("io.Copy"))
+//@ func appendFile [C33]
+//@   check none
+//@   at call os.OpenFile#1 assert arg0 == filename && bit(arg1, os.O_APPEND) && bit(arg1, os.O_CREATE) && !bit(arg1, os.O_TRUNC)
+//@   at call io.Copy#1 assert arg1 == reader
+//@   ensures called("os.OpenFile") && !called("os.Create") && imp(result == nil, called("io.Copy"))
